@@ -282,7 +282,9 @@ package slicez
 //@     invariant forall k in idx1..len(s): s[k] == old(s[k])
 //@     invariant forall k in 0..idx1: has(seen, keyFn(old(s[k])))
 //@     invariant forall x: has(seen, x) ==> 0 <= wm[x] && wm[x] < idx1 && keyFn(old(s[wm[x]])) == x
-//@     invariant forall j in 0..len(dst): 0 <= w[j] && w[j] < idx1 && dst[j] == old(s[w[j]]) && firstOccK(old(s), w[j], keyFn)
+//@     invariant forall j in 0..len(dst): 0 <= w[j] && w[j] < idx1
+//@     invariant forall j in 0..len(dst): dst[j] == old(s[w[j]])
+//@     invariant forall j in 0..len(dst): firstOccK(old(s), w[j], keyFn)
 //@     invariant forall j in 0..len(dst)-1: w[j] < w[j+1]
 //@     invariant forall k in 0..idx1: firstOccK(old(s), k, keyFn) ==> 0 <= pos[k] && pos[k] < len(dst) && w[pos[k]] == k
 //@     decreases len(s) - idx1
